@@ -124,14 +124,16 @@ def tree(files):
     return ents
 
 
-def js_of_size(n, name='v'):
-    """valid JavaScript of exactly n bytes that does NOT end in ';' or a newline (so the bundle separator matters)"""
+def js_of_size(n, name='v', tail='"'):
+    """valid JavaScript of exactly n bytes that does NOT end in ';' or a newline, optionally ending in a line comment:
+    without the ';' of the separator a following '(' continues the statement, without its newline the next file
+    disappears in the comment"""
     if n == 0:
         return ''
     head = 'var %s="' % name
-    if n < len(head) + 1:
+    if n < len(head) + len(tail):
         return ('a' * n)
-    return head + 'x' * (n - len(head) - 1) + '"'
+    return head + 'x' * (n - len(head) - len(tail)) + tail
 
 
 def css_of_size(n):
@@ -153,11 +155,15 @@ def extra_scenarios(ctx):
         out.append(sc)
 
     # bundles whose first file ends around the read-buffer boundaries (the separator may be split across reads)
-    sizes = list(range(500, 521)) + list(range(888, 900)) + list(range(1400, 1412)) + list(range(4090, 4101)) + [0, 1, 2, 3, 511, 512, 513]
+    # io.ReadAll's buffer is 512, 896, 1408, 2048, 3072, 4096, 5376 bytes: one free byte is left at 511, 895, ...
+    sizes = list(range(500, 521)) + list(range(888, 900)) + list(range(1400, 1412)) + list(range(2040, 2052)) + \
+        list(range(3066, 3076)) + list(range(4090, 4101)) + list(range(5370, 5380)) + [0, 1, 2, 3]
     if q:
-        sizes = sorted(set(rnd.sample(sizes, 16) + [510, 511, 512, 4095, 4096]))
+        sizes = sorted(set(rnd.sample(sizes, 14) + [510, 511, 512, 895, 1407, 4095, 4096]))
     for n in sizes:
-        f = {'p1.js': js_of_size(n, 'p'), 'p2.js': js_of_size(rnd.choice([0, 1, 9, 30]), 'q'), 'p3.js': 'var r = 3'}
+        # the first file does not end in ';' and the next one may start with '(': without the separator the program changes
+        f = {'p1.js': js_of_size(n, 'p', rnd.choice(['"', '"//c'])), 'p2.js': rnd.choice(['', 'q', 'var q="1"', '(function(){q()})()', '[1,2].map(q)']),
+             'p3.js': rnd.choice(['var r = 3', '(function(){r()})()'])}
         add(f, inputs=['p1.js', 'p2.js', 'p3.js'], output='all.js', b=True)
         if n % 3 == 0 or not q:
             add(f, inputs=['p2.js', 'p1.js', 'p3.js'], b=True)
@@ -311,21 +317,29 @@ def prepare(ctx, reqs, tag):
         if 'sc' in reqs[i]:
             sc = reqs[i]['sc']          # keep driver-side fields (stdin, fixed contents)
         sc['id'] = len(scs)
+        sc['origin'] = 'gen' if 'gen' in reqs[i] else 'driver'
         sc['known'] = p['known']
         scs.append(complete(sc, p, ctx.rnd))
     return scs, dropped
+
+
+def tick(ctx, what):
+    import time
+    vlib.log('[%s %6.1fs] %s' % (ctx.pid, time.time() - ctx.t0, what))
 
 
 def run(ctx):
     exe = vlib.build_harness(ctx, 'c19')
     cli = vlib.build_cli(ctx)
     quick = ctx.quick()
+    tick(ctx, 'built')
     r = vlib.tlc_mc(ctx, 'CliPlanGen', 'CliPlanGen_quick.cfg' if quick else 'CliPlanGen_thorough.cfg',
                     workers=min(8, vlib.JOBS), heap='4g', timeout=2400)
     gen = []
     import re
     for m in re.finditer(r'<<"SC", (\d+), <<([\d, ]*)>>, "(\w+)", (\d+)>>', r['out']):
         gen.append((int(m.group(1)), [int(x) for x in m.group(2).split(',')] if m.group(2).strip() else [], m.group(3), int(m.group(4))))
+    tick(ctx, 'design check done: %d scenarios, %d determined' % (r['distinct'], len(gen)))
     ctx.coverage['scenarios_determined_by_documentation'] = len(gen)
     ctx.coverage['scenarios_enumerated'] = r['distinct']
     if len(gen) < 1000:
@@ -363,8 +377,11 @@ def run(ctx):
     allscs = scs + pscs
     for i, s in enumerate(allscs):
         s['id'] = i
+    tick(ctx, 'plans rendered: %d scenarios to run' % len(allscs))
     lines = run_real(ctx, exe, cli, allscs, 'main')
+    tick(ctx, 'real binary ran')
     accepted, rejects = validate(ctx, lines)
+    tick(ctx, 'validated: %d accepted, %d rejected' % (accepted, len(set(i for i, _ in rejects))))
     why = {}
     for i, w in rejects:
         why.setdefault(i, []).append(w)
@@ -415,7 +432,8 @@ def run(ctx):
              'same file as its source under a different spelling (hard link, link target, directory link). Scenarios whose '
              'outcome the README does not determine (Plan.unspec/hazard) are never run.',
         samples=samples,
-        scenarios_from_generator=ngen, scenarios_from_driver=len(allscs) - len(pscs) - sum(1 for s in scs if 'gen' in s.get('origin', '')),
+        scenarios_from_generator=sum(1 for x in scs if x['origin'] == 'gen'),
+        scenarios_from_driver=sum(1 for x in scs if x['origin'] == 'driver'),
         pinned_witnesses=len(pscs), runs_with_a_failing_file=fails, bundle_runs=bundles, sync_runs=syncs,
         distinct_flag_combinations=len(shapes_run), rejections=len(bad), rejections_reproduced=reproduced,
     ))
